@@ -33,14 +33,17 @@ TConn == IsEvent("Conn") /\ AtT /\ Quiet /\ SetConn(Ev.k) /\ Keep
 TVapi == IsEvent("Vapi") /\ AtT /\ Quiet /\ VapiCall /\ Keep
 TVapiRet == /\ IsEvent("VapiRet") /\ AtT /\ nobs < Len(acc) /\ Named("VapiAccepted", acc[nobs + 1] = Ev.t)
             /\ nobs' = nobs + 1 /\ UNCHANGED vars
-Shown == Named("Status", status = Ev.status) /\ Named("Gauge", gauge = Ev.gauge)
-TSync == IsEvent("Sync") /\ AtT /\ Shown /\ RecvSlot /\ Keep
+Says == Named("Status", status = Ev.status) /\ Named("Gauge", gauge = Ev.gauge)
+TSync == IsEvent("Sync") /\ AtT /\ Says /\ RecvSlot /\ Keep
 TPC == IsEvent("PC") /\ AtT /\ RecvMin /\ Keep
-TAdv == IsEvent("Adv") /\ AtT /\ Quiet /\ Shown /\ UNCHANGED vars /\ Keep
+TAdv == IsEvent("Adv") /\ AtT /\ Quiet /\ Says /\ UNCHANGED vars /\ Keep
 TEnd == IsEvent("End") /\ AtT /\ Quiet /\ Named("AcceptedSeen", nobs = Len(acc)) /\ UNCHANGED vars /\ Keep
 MinT(Ts) == CHOOSE x \in Ts : \A y \in Ts : x <= y
+\* a sender logs VapiRet in the instant its send completes: a call is taken only if the log shows it (keeps the inference linear)
+Shown(t) == Cardinality({k \in l..TLen : Trace[k].ev = "VapiRet" /\ Trace[k].t = t})
+CanAccept == Shown(now) > Len(acc) - nobs
 TSilent == /\ Silent /\ Keep
-           /\ \/ FireSlot \/ FireMin \/ SlotEnd \/ (~Strict /\ RecvVapi) \/ (Strict /\ InSelect /\ RecvVapi) \/ AcceptVapi
+           /\ \/ FireSlot \/ FireMin \/ SlotEnd \/ (CanAccept /\ RecvVapi) \/ (CanAccept /\ AcceptVapi)
               \/ (l <= TLen /\ now < Ev.t /\ (Strict => waiting = 0) /\ Tick(MinT(Timers \cup {Ev.t})))
 TraceNext == TReset \/ TStart \/ TSetBN \/ TSetPC \/ TConn \/ TVapi \/ TVapiRet \/ TSync \/ TPC \/ TAdv \/ TEnd \/ TSilent
 TraceSpec == TraceInit /\ [][TraceNext]_tvars
